@@ -72,12 +72,16 @@ def esi1(ctx, prog, cfg):
            [r"call " + ln, r"return tuple::\{0: " + ln + r", 1: Option::Some\{0: " + ln + r"\}\}"], cfg, "size_hint = (len, Some(len))",
            "`size_hint` of %s is not `(len, Some(len))` of one `self.len()` call: the exact-size contract is broken" % ty)
         mm(ctx, "ESI1", prog, "<%s as Iterator>::next" % ty,
-           [r"call slice_take_first%s\(&self->right\)" % sfx, r"guard discr\(slice_take_first%s\(&self->right\)\)" % sfx, r"return phi",
-            r"call slice_take_first%s\(&self->left\)" % sfx, r"guard discr\(slice_take_first%s\(&self->left\)\)" % sfx], cfg,
+           [r"call slice_take_first%s\(&self->right\)" % sfx, r"guard discr\(slice_take_first%s\(&self->right\)\)" % sfx,
+            r"return Option::Some\{0: slice_take_first%s\(&self->right\) as Some\.0\}" % sfx,
+            r"call slice_take_first%s\(&self->left\)" % sfx, r"guard discr\(slice_take_first%s\(&self->left\)\)" % sfx,
+            r"return Option::Some\{0: slice_take_first%s\(&self->left\) as Some\.0\}" % sfx, r"return Option::None\{\}"], cfg,
            "next: first of right, else first of left", "`next` of %s does not take the first element of `right` and only then of `left`" % ty, guards=True)
         mm(ctx, "ESI1", prog, "<%s as DoubleEndedIterator>::next_back" % ty,
-           [r"call slice_take_last%s\(&self->left\)" % sfx, r"guard discr\(slice_take_last%s\(&self->left\)\)" % sfx, r"return phi",
-            r"call slice_take_last%s\(&self->right\)" % sfx, r"guard discr\(slice_take_last%s\(&self->right\)\)" % sfx], cfg,
+           [r"call slice_take_last%s\(&self->left\)" % sfx, r"guard discr\(slice_take_last%s\(&self->left\)\)" % sfx,
+            r"return Option::Some\{0: slice_take_last%s\(&self->left\) as Some\.0\}" % sfx,
+            r"call slice_take_last%s\(&self->right\)" % sfx, r"guard discr\(slice_take_last%s\(&self->right\)\)" % sfx,
+            r"return Option::Some\{0: slice_take_last%s\(&self->right\) as Some\.0\}" % sfx, r"return Option::None\{\}"], cfg,
            "next_back: last of left, else last of right", "`next_back` of %s does not take the last element of `left` and only then of `right`" % ty, guards=True)
         mm(ctx, "DEFAULT1", prog, "<%s as Default>::default" % ty, [r"call %s::empty\(\)" % ty.split("<")[0], r"return .*"], cfg, "default() = empty()",
            "`default()` of %s is not `empty()`" % ty)
